@@ -622,6 +622,9 @@ func (s *BufferedPaginatedStore) DecodeAndMergeWith(b *[]byte, encodingMode enc.
 		if err != nil {
 			return err
 		}
+		if numBins > uint64(maxInt) {
+			return errors.New("invalid number of bins")
+		}
 		remaining := int(numBins)
 		index := int64(0)
 		// Process indexes in batches to avoid checking after each insertion
